@@ -4,5 +4,6 @@ import BufrProps.C14
 #print axioms Bufr.C14.C14_fixed_subsets
 #print axioms Bufr.C14.C14_merge_refuses
 #print axioms Bufr.C14.C14_merge_places
+#print axioms Bufr.C14.C14_merge_clamps
 #print axioms Bufr.C14.C14_ieee_column_const
 #print axioms Bufr.C14.C14_ieee_column_listed
